@@ -35,6 +35,9 @@ AXES = {
 
 
 def check(rep, an, tier):
+    # the bounds every clause below speaks of are the REGISTERED ones: registration keeps / replaces exactly what it is given
+    from .C14 import register_bounds_rule
+    register_bounds_rule(rep, an)
     cfgs = list(lsq_configs(tier, AXES))
     if tier == "quick":
         d0 = {n: AXES[n][0][0] for n in AXES}
